@@ -200,3 +200,17 @@ Lemma tuple_value_strict : forall n data v,
   scalar_value (extract_tuple n) data = SAccept v <->
   exists rest, skip_space data <> [] /\ extract_tuple n (skip_space data) = ExtOk v rest /\ NumProofs.all_space rest.
 Proof. intros n. apply (NumProofs.scalar_value_iff (extract_tuple n) (extract_tuple_progress n)). Qed.
+
+(* lists of 3-vectors / quaternions: accepted iff the whole text is a sequence of delimited tuples *)
+Lemma tuple_vector_strict : forall n data vs,
+  vector_dyn (extract_tuple n) data = VAccept vs <-> NumProofs.tokens_of (extract_tuple n) data vs.
+Proof.
+  intros n data vs.
+  assert (T : forall vs0, extract_all (extract_tuple n) true (S (length data)) data = (vs0, []) <->
+                          NumProofs.tokens_of (extract_tuple n) data vs0).
+  { intros vs0. apply (NumProofs.extract_all_tokens (extract_tuple n) (extract_tuple_progress n)). lia. }
+  unfold vector_dyn. split.
+  - intros H. destruct (extract_all (extract_tuple n) true (S (length data)) data) as [vs' r] eqn:E.
+    destruct r; [|discriminate]. inversion H. subst vs'. apply T. reflexivity.
+  - intros H. apply T in H. rewrite H. reflexivity.
+Qed.
